@@ -683,7 +683,9 @@ def wiring_of_expansion(blocks, sid, t):
     for p in params:
         name, _, ty = p.partition(":")
         name, ty = name.strip(), ty.strip()
-        if re.match(r"&\s*mut\b", ty):
+        if re.fullmatch(r"a\d+", name):
+            plist.append(name)                      # one of the closure's own arguments (may itself be of reference type)
+        elif re.match(r"&\s*mut\b", ty):
             plist.append("&mut " + name)
         elif ty.startswith("&"):
             plist.append("&" + name)
@@ -710,7 +712,10 @@ def wiring_of_expansion(blocks, sid, t):
     if len(bars) >= 2:
         cparams = [p.partition(":")[0].strip() for p in split_top(re.sub(r"\s+", " ", before[bars[-2] + 1: bars[-1]]))]
     ncap = sum(1 for p in plist if p.startswith("&"))
-    nargs = len(plist) - ncap
+    # closure call: the leading run of plain argument names, then the rest (the borrowed captures) in the order written
+    nargs = 0
+    while nargs < len(clo_args) and re.fullmatch(r"a\d+", clo_args[nargs]):
+        nargs += 1
     cargs = clo_args[:nargs]
     ctail = [re.sub(r"&\s*mut\s+", "&mut ", a).replace("& ", "&") for a in clo_args[nargs:]]
     rec_tails = sorted({",".join(a[len(a) - ncap:] if ncap else []) for _, a in calls[:-1]})
